@@ -52,25 +52,24 @@ fn strip(outs: &[String], opts: &Opts) -> Vec<String> {
         .collect()
 }
 
-/// Terms of the current database in surface syntax, with the class each denotes.
-pub fn row_terms(raw: &RawDb) -> Vec<(String, (String, u64))> {
-    // least-size names in surface syntax
-    let mut names: std::collections::HashMap<(String, u64), (usize, String)> = Default::default();
-    let surf = |v: &RVal, names: &std::collections::HashMap<(String, u64), (usize, String)>| -> Option<String> {
-        fn go(v: &RVal, names: &std::collections::HashMap<(String, u64), (usize, String)>) -> Option<String> {
-            Some(match v {
-                RVal::I(i) => i.to_string(),
-                RVal::B(b) => b.to_string(),
-                RVal::S(s) => format!("{s:?}"),
-                RVal::Class(s, n) => names.get(&(s.clone(), *n))?.1.clone(),
-                RVal::Vec(xs) if !xs.is_empty() => format!("(vec-of {})", xs.iter().map(|x| go(x, names)).collect::<Option<Vec<_>>>()?.join(" ")),
-                RVal::Set(xs) if !xs.is_empty() => format!("(set-of {})", xs.iter().map(|x| go(x, names)).collect::<Option<Vec<_>>>()?.join(" ")),
-                RVal::MSet(xs) if !xs.is_empty() => format!("(multiset-of {})", xs.iter().map(|x| go(x, names)).collect::<Option<Vec<_>>>()?.join(" ")),
-                _ => return None,
-            })
-        }
-        go(v, names)
-    };
+type Names = std::collections::HashMap<(String, u64), (usize, String)>;
+
+fn surf(v: &RVal, names: &Names) -> Option<String> {
+    Some(match v {
+        RVal::I(i) => i.to_string(),
+        RVal::B(b) => b.to_string(),
+        RVal::S(s) => format!("{s:?}"),
+        RVal::Class(s, n) => names.get(&(s.clone(), *n))?.1.clone(),
+        RVal::Vec(xs) if !xs.is_empty() => format!("(vec-of {})", xs.iter().map(|x| surf(x, names)).collect::<Option<Vec<_>>>()?.join(" ")),
+        RVal::Set(xs) if !xs.is_empty() => format!("(set-of {})", xs.iter().map(|x| surf(x, names)).collect::<Option<Vec<_>>>()?.join(" ")),
+        RVal::MSet(xs) if !xs.is_empty() => format!("(multiset-of {})", xs.iter().map(|x| surf(x, names)).collect::<Option<Vec<_>>>()?.join(" ")),
+        _ => return None,
+    })
+}
+
+/// Least-size name of every class, in egglog surface syntax.
+pub fn surface_names(raw: &RawDb) -> std::collections::HashMap<(String, u64), String> {
+    let mut names: Names = Default::default();
     loop {
         let mut changed = false;
         for t in raw.tables.iter().filter(|t| t.is_ctor && !t.is_let) {
@@ -93,6 +92,13 @@ pub fn row_terms(raw: &RawDb) -> Vec<(String, (String, u64))> {
             break;
         }
     }
+    names.into_iter().map(|(k, v)| (k, v.1)).collect()
+}
+
+/// Terms of the current database in surface syntax, with the class each denotes.
+pub fn row_terms(raw: &RawDb) -> Vec<(String, (String, u64))> {
+    let plain = surface_names(raw);
+    let names: Names = plain.iter().map(|(k, v)| (k.clone(), (v.len(), v.clone()))).collect();
     let mut out = Vec::new();
     for t in raw.tables.iter().filter(|t| t.is_ctor && !t.is_let) {
         for r in &t.rows {
